@@ -213,13 +213,20 @@ func (s *subSender) Propose(p *hotstuff.ProposeMsg) {
 	}
 }
 
-// hourDuration: view timers never fire by themselves; the scheduler injects TimeoutEvents.
-type hourDuration struct{}
+// recDuration: view timers never fire by themselves (the scheduler injects TimeoutEvents), but every call the synchronizer
+// makes on its ViewDuration is recorded: Duration() is called by startTimeoutTimer only, i.e. it arms the view timer for the
+// view the replica is in at that moment (TimerView); DurLog is the call sequence (D = Duration / timer armed, S = ViewStarted,
+// K = ViewSucceeded, T = ViewTimeout).
+type recDuration struct{ n *Node }
 
-func (hourDuration) Duration() time.Duration { return time.Hour }
-func (hourDuration) ViewStarted()            {}
-func (hourDuration) ViewSucceeded()          {}
-func (hourDuration) ViewTimeout()            {}
+func (d recDuration) Duration() time.Duration {
+	d.n.TimerView = int(d.n.VS.View())
+	d.n.DurLog = append(d.n.DurLog, "D")
+	return time.Hour
+}
+func (d recDuration) ViewStarted()   { d.n.DurLog = append(d.n.DurLog, "S") }
+func (d recDuration) ViewSucceeded() { d.n.DurLog = append(d.n.DurLog, "K") }
+func (d recDuration) ViewTimeout()   { d.n.DurLog = append(d.n.DurLog, "T") }
 
 // Node is one real replica: every protocol component of relab/hotstuff wired as in twins/node.go.
 type Node struct {
@@ -235,6 +242,8 @@ type Node struct {
 	Proposer     *consensus.Proposer
 	Committer    *consensus.Committer
 	Sync         *synchronizer.Synchronizer
+	TimerView    int      // the view the view timer was armed for last (0: never armed)
+	DurLog       []string // calls on the ViewDuration (see recDuration)
 	Cache        *clientpb.CommandCache
 	CIO          *server.ClientIO
 	Await        map[clientpb.MessageID]<-chan error // outcome channels of waiting clients
@@ -368,7 +377,7 @@ func NewNodes(o NodeOpts) ([]*Node, error) {
 		}
 		n.Voter = consensus.NewVoter(n.Cfg, n.LR, n.Rules, cm, n.Auth, n.Committer)
 		n.Proposer = consensus.NewProposer(n.EL, n.Cfg, n.BC, n.VS, n.Rules, cm, n.Voter, n.Cache, n.Committer)
-		n.Sync = synchronizer.New(n.EL, Quiet{}, n.Cfg, n.Auth, n.LR, hourDuration{}, synchronizer.NewTimeoutRuler(n.Cfg, n.Auth),
+		n.Sync = synchronizer.New(n.EL, Quiet{}, n.Cfg, n.Auth, n.LR, recDuration{n}, synchronizer.NewTimeoutRuler(n.Cfg, n.Auth),
 			n.Proposer, n.Voter, n.VS, sender)
 		nn := n
 		eventloop.Register(n.EL, func(e hotstuff.CommitEvent) { nn.Commits = append(nn.Commits, e.Block) }, eventloop.Prioritize())
@@ -437,6 +446,7 @@ func (n *Node) guarded(f func() int) int {
 			}
 			n.StarvedViews = append(n.StarvedViews, int(n.VS.View()))
 			n.StarvedTotal++
+			n.timerFired()
 			n.EL.AddEvent(hotstuff.TimeoutEvent{View: n.VS.View()})
 		}
 	}
@@ -466,8 +476,17 @@ func (n *Node) Deliver(msg any) int {
 	})
 }
 
+// timerFired: a one-shot timer that has fired is no longer armed; the synchronizer must start a new one (OnLocalTimeout does so
+// first thing).  Only the timer armed for the current view is played by the driver.
+func (n *Node) timerFired() {
+	if n.TimerView == int(n.VS.View()) {
+		n.TimerView = 0
+	}
+}
+
 // FireTimeout makes the node's view timer expire for its current view.
 func (n *Node) FireTimeout() int {
+	n.timerFired()
 	return n.Deliver(hotstuff.TimeoutEvent{View: n.VS.View()})
 }
 
